@@ -314,8 +314,11 @@ def text_case_lit(obs, ising):
     _, _, body = parse_file(obs["text"])
     _, shape, dense, lc = obs["load"]
     zrows = lambda rows: lit.lst([lit.lst([lit.z(v) for v in row]) for row in rows])  # noqa
+    first = obs["text"].split("\n")[0]
+    assert first.startswith("#")
     return lit.tup(lit.boolean(ising), lit.nat(n), lit.lst([lit.lst([lit.q(v) for v in row]) for row in Mat]),
-                   lit.lst([lit.q(v) for v in h]), lit.q(c), lit.lst([coq_string(s) for s in body]),
+                   lit.lst([lit.q(v) for v in h]), lit.q(c), coq_string(first[1:]), coq_string(obs["text"]),
+                   lit.lst([coq_string(s) for s in body]),
                    lit.tup(lit.nat(shape[0]), zrows(dense), lit.z(lc)))
 
 
@@ -613,7 +616,7 @@ def run(ctx):
         model = ctx.coq_eval(HEADER, f"export_text {model_problem(obs, ising)}")
         ctx.violation(f"correspondence/text/tags{tags}", "model and implementation disagree on the bytes of the file or on parsing them; "
                       "the property oracle did not fail on this input",
-                      {"correspondence": "Export.check_tcase", "fields": "1 lines of the file 2 load_text result", "tags": tags,
+                      {"correspondence": "Export.check_tcase", "fields": "1 lines of the file 2 load_text on the lines 3 bytes of the file 4 load_bytes on the bytes", "tags": tags,
                        "input": case_json(case, ising), "file": obs["text"].split("\n")[1:], "loaded": repr(obs["load"]),
                        "model_export_text": model}, False)
     if ctx.tier == "thorough":
